@@ -148,6 +148,20 @@ func TestCheck(t *testing.T) {
 	part := os.Getenv("VERIF_PART")
 	r := ev.StartPart(prop, "model_checking", part)
 	jobs, budgetS := jobsFor(prop, r.Thorough())
+	if adhoc := os.Getenv("VERIF_JOBS"); adhoc != "" {
+		// development aid (./verif explore): "scenario@s,f[@filter];..."
+		jobs, budgetS = nil, 600
+		for _, js := range strings.Split(adhoc, ";") {
+			f := strings.Split(js, "@")
+			var s0, f0 int
+			fmt.Sscanf(f[1], "%d,%d", &s0, &f0)
+			j := Job{Scenario: f[0], Budgets: []explore.Budget{B(s0, f0)}, Split: 1}
+			if len(f) > 2 {
+				j.Filter = f[2]
+			}
+			jobs = append(jobs, j)
+		}
+	}
 	if len(jobs) == 0 {
 		ev.Framework("no jobs for property %s", prop)
 	}
